@@ -94,6 +94,9 @@ fn check_run(rep: &Report, what: &str, tree: &Tree, cfg: Config) {
     }
 }
 
+/// number of sources of the "many named sources" case: more than 4 x 16 threads + 1
+const MANY: usize = 70;
+
 fn for_each_bytes(max_tok: usize, next: &dyn Fn() -> usize, stop: &dyn Fn() -> bool, f: &mut dyn FnMut(&[usize])) {
     crate::elines::for_each_seq(TOK.len(), max_tok, next, stop, f)
 }
@@ -259,6 +262,14 @@ pub fn run_c18(tier: &str) -> i32 {
                 v.push((format!("command writing {n} bytes to {what}"), t));
             }
         }
+        // many sources named one by one, the first one fails: its error arrives while the results of all the
+        // others are still on their way (more results than any bounded queue of a few slots per thread holds)
+        let mut many = Tree::new();
+        tfile(&mut many, "f00.txt.txtpp", &b"\xff\n"[..]);
+        for i in 1..MANY {
+            tfile(&mut many, &format!("f{i:02}.txt.txtpp"), format!("file {i}\n"));
+        }
+        v.push(("many-named-sources-first-fails".to_string(), many));
         v
     };
     let mut cli_jobs = vec![];
@@ -304,6 +315,10 @@ pub fn run_c18(tier: &str) -> i32 {
             args.extend(["-j", &ths]);
             if rec {
                 args.push("-r");
+            }
+            let many_inputs: Vec<String> = (0..MANY).map(|i| format!("f{i:02}.txt")).collect();
+            if core[ci].0 == "many-named-sources-first-fails" {
+                args.extend(many_inputs.iter().map(|s| s.as_str()));
             }
             let (code, to) = if verb >= 3 {
                 // stderr closed: every write of the progress reporter fails
